@@ -257,3 +257,42 @@ Proof.
   destruct (isT (beval v [] e)) eqn:Ht; [discriminate|].
   intros Hn e' [<-|Hin]; [intros E; rewrite E in Ht; discriminate|]. eapply IH; eauto.
 Qed.
+
+(* ------------------------------------------------------------------------------------ *)
+(* Two-dataset link: predict() splits the concatenated table into the rows of the least and of
+   the greatest source dataset and joins them with WHERE 1=1.  With exactly two datasets, and
+   composite ids ordered by dataset first, that is the link_only job on the whole table. *)
+Section TwoDataset.
+  Variable rec : Type.
+  Variable ds : rec -> nat.                 (* source dataset, by rank of its name *)
+  Variable idlt : rec -> rec -> bool.       (* composite id l < composite id r *)
+  Variables a b : nat.
+  Hypothesis a_lt_b : a < b.
+  Variable All : list rec.
+  Hypothesis two_datasets : forall x, In x All -> ds x = a \/ ds x = b.
+  Hypothesis id_order_by_dataset :
+    forall l r, In l All -> In r All -> ds l < ds r -> idlt l r = true.
+  Hypothesis idlt_asym : forall l r, idlt l r = true -> idlt r l = false.
+
+  Definition adm_link_only (l r : rec) : bool := idlt l r && negb (Nat.eqb (ds l) (ds r)).
+  Definition adm_all (_ _ : rec) : bool := true.
+  Definition part (d : nat) : list rec := filter (fun x => Nat.eqb (ds x) d) All.
+
+  Theorem two_dataset_split_equiv (rules : list (rec -> rec -> tv)) n l r :
+    In (n, (l, r)) (block adm_link_only rules All All) <->
+    In (n, (l, r)) (block adm_all rules (part a) (part b)).
+  Proof.
+    unfold block. rewrite !block_aux_spec. unfold part. rewrite !filter_In, !Nat.eqb_eq.
+    unfold adm_link_only, adm_all. split.
+    - intros (Hl & Hr & Ha & Hex & Hf). apply andb_true_iff in Ha. destruct Ha as [Hid Hne].
+      apply negb_true_iff, Nat.eqb_neq in Hne.
+      destruct (two_datasets l Hl) as [El|El], (two_datasets r Hr) as [Er|Er]; try congruence.
+      + tauto.
+      + exfalso. assert (Hrl : idlt r l = true) by (apply id_order_by_dataset; auto; lia).
+        rewrite (idlt_asym _ _ Hid) in Hrl. discriminate.
+    - intros ((Hl & El) & (Hr & Er) & _ & Hex & Hf).
+      repeat split; auto. apply andb_true_iff. split.
+      + apply id_order_by_dataset; auto. lia.
+      + apply negb_true_iff, Nat.eqb_neq. lia.
+  Qed.
+End TwoDataset.
